@@ -152,9 +152,22 @@ func SendStepCheck(m *PktModel, w *world.World, ev *StepEvent) []explore.Finding
 			for _, kv := range ev.Before {
 				bm[string(kv.K)] = kv.V
 			}
+			am := map[string]bool{}
 			for _, kv := range ev.After {
+				am[string(kv.K)] = true
 				if kv.Store == "tibc" && strings.HasPrefix(string(kv.K), "nextSequenceSend/") && !bytes.Equal(bm[string(kv.K)], kv.V) {
 					add("send-sequence-changed-by-inbound-message", string(kv.K)+" by "+ev.Label)
+				}
+			}
+			// a commitment disappears only through the acknowledgement of exactly that packet
+			for _, kv := range ev.Before {
+				k := string(kv.K)
+				if kv.Store != "tibc" || !strings.HasPrefix(k, "commitments/") || am[k] {
+					continue
+				}
+				own := ev.Kind == "ack" && k == fmt.Sprintf("commitments/%s/%s/sequences/%d", ev.Pkt.SourceChain, ev.Pkt.DestinationChain, ev.Pkt.Sequence)
+				if !own {
+					add("commitment-removed-by-a-message-that-does-not-acknowledge-it", k+" by "+ev.Label)
 				}
 			}
 		}
